@@ -38,13 +38,21 @@ func ConvertHCLToAmmo(ammo AmmoHCL) (*AmmoConfig, error) {
 	return cfg, nil
 }
 
-func DecodeMap(bytes []byte) (*AmmoConfig, error) {
+func DecodeMap(bytes []byte) (cfg *AmmoConfig, err error) {
 	const op = "scenario/decoder.decodeMap"
+
+	// the decoders below panic on some malformed documents (e.g. a mapping key that YAML reads as
+	// a boolean, like `n:` or `y:`): report that as an error of the document
+	defer func() {
+		if r := recover(); r != nil {
+			cfg, err = nil, fmt.Errorf("%s, malformed config: %v", op, r)
+		}
+	}()
 
 	var ammoCfg AmmoConfig
 
 	data := make(map[string]any)
-	err := yaml.Unmarshal(bytes, &data)
+	err = yaml.Unmarshal(bytes, &data)
 	if err != nil {
 		return nil, fmt.Errorf("%s, yaml.Unmarshal, %w", op, err)
 	}
